@@ -85,7 +85,16 @@ def run(ctx: Any, prog: Program) -> None:
     en = aw.get('__enter__')
     if en is None:
         raise AnalysisError('AtomicWriter.__enter__ not found')
-    mk = [i for i, st in enumerate(en.body) if isinstance(st, ast.Expr) and isinstance(st.value, ast.Call) and dotted(st.value.func) == 'self.make_tempfile']
+    # a failure of make_tempfile() itself: the name in `_temp_name` is then one whose exclusive creation did NOT succeed (the name is assigned
+    # before the open in the scanning loop) - it may be another writer's live temp file, so nothing may unlink it here
+    for tr_ in [t for t in ast.walk(en) if isinstance(t, ast.Try) and any(isinstance(c_, ast.Call) and dotted(c_.func) == 'self.make_tempfile' for b_ in t.body for c_ in ast.walk(b_))]:
+        for h_ in tr_.handlers:
+            ul = [c_ for b_ in h_.body for c_ in ast.walk(b_) if isinstance(c_, ast.Call) and isinstance(c_.func, ast.Attribute) and (c_.func.attr == 'unlink' or (dotted(c_.func.value) == 'self' and c_.func.attr in
+                  {m_ for m_, f_ in aw.items() if any(isinstance(x_, ast.Call) and isinstance(x_.func, ast.Attribute) and x_.func.attr == 'unlink' for x_ in ast.walk(f_))}))]
+            ctx.check('C12.W4', not ul, core, ul[0] if ul else h_, f'__enter__ unlinks the temp name when make_tempfile() fails (`{U(ul[0])[:40] if ul else ""}`): at that point `_temp_name` is the name whose exclusive open has just failed '
+                      '(EMFILE, EACCES ...), i.e. possibly the live temp file of another writer in the same directory, which is then deleted', func='AtomicWriter.__enter__', text='no unlink of a name this writer did not create')
+    mk = [i for i, st in enumerate(en.body) if (isinstance(st, ast.Expr) and isinstance(st.value, ast.Call) and dotted(st.value.func) == 'self.make_tempfile')
+          or (isinstance(st, ast.Try) and any(isinstance(c_, ast.Call) and dotted(c_.func) == 'self.make_tempfile' for b_ in st.body for c_ in ast.walk(b_)))]
     ctx.shape('C12.W3', len(mk) == 1, core, en, '__enter__ calls self.make_tempfile() once as a top-level statement', func='AtomicWriter.__enter__')
     if len(mk) == 1:
         BROAD = {None, 'BaseException', 'Exception', 'OSError'}
@@ -120,9 +129,13 @@ def run(ctx: Any, prog: Program) -> None:
     g = build_cfg(ex, may_raise)
 
     ex_alias = temp_aliases(ex)
+    # private helpers that do the unlinking (`self._discard()`): a call of one counts as the unlink it contains
+    unlink_helpers = {m_ for m_, f_ in aw.items() if m_.startswith('_') and not m_.startswith('__') and any(isinstance(c_, ast.Call) and isinstance(c_.func, ast.Attribute) and c_.func.attr == 'unlink' for c_ in ast.walk(f_))}
 
     def has_call(node: Any, attr: str, recv_contains: Optional[str] = None) -> bool:
         for c in calls_in_stmt(node.stmt):
+            if attr == 'unlink' and isinstance(c.func, ast.Attribute) and dotted(c.func.value) == 'self' and c.func.attr in unlink_helpers:
+                return True
             if isinstance(c.func, ast.Attribute) and c.func.attr == attr:
                 if recv_contains is None or recv_contains in U(c.func.value) or (recv_contains == '_temp_name' and isinstance(c.func.value, ast.Name) and c.func.value.id in ex_alias):
                     return True
@@ -395,6 +408,10 @@ def run(ctx: Any, prog: Program) -> None:
     ok = len(tries) == 1 and len(tries[0].handlers) == 1 and dotted(tries[0].handlers[0].type) == 'FileExistsError'
     ctx.check('C12.W4', ok, core, tries[0] if tries else mt, 'the name search may only continue on FileExistsError (any other error must propagate)', func='AtomicWriter.make_tempfile', text='retry only on FileExistsError')
     first_if = [n for n in mt.body if isinstance(n, ast.If)]
+    if first_if and 'self.temp is not None' in U(first_if[0].test):
+        rets_ = [r for b_ in first_if[0].body for r in ast.walk(b_) if isinstance(r, ast.Return)]
+        ctx.check('C12.W4', not rets_, core, rets_[0] if rets_ else first_if[0], 'make_tempfile returns from its re-entry block and keeps the old handle: a handle that was written to keeps its file position (truncate() does not rewind), '
+                  'so the next complete write lands behind a gap of NUL bytes and the committed file is neither the old nor the new contents', func='AtomicWriter.make_tempfile', text='re-entry opens a fresh temp file')
     ok = bool(first_if) and 'self.temp is not None' in U(first_if[0].test) and any(has for has in ['close' in U(first_if[0]) and 'unlink' in U(first_if[0])])
     ctx.shape('C12.W4', ok, core, first_if[0] if first_if else mt, 're-entering the writer must close and unlink the previous temp file', func='AtomicWriter.make_tempfile', text='re-entry cleanup')
     # ---- W5 ----------------------------------------------------------------------------------------------
@@ -463,6 +480,8 @@ def run(ctx: Any, prog: Program) -> None:
 
 
 MUTANTS = [
+    {'id': 'enter_unlinks_on_failed_tempfile', 'file': '__init__.py', 'find': "        self.make_tempfile()\n        assert self.temp is not None", 'replace': "        try:\n            self.make_tempfile()\n        except BaseException:\n            if self._temp_name is not None:\n                self._temp_name.unlink()\n            raise\n        assert self.temp is not None", 'expect': 'C12.W4'},
+    {'id': 'reentry_truncates_old_handle', 'file': '__init__.py', 'find': "            # Already open - close and delete the current file.\n            self.temp.close()\n", 'replace': "            if not self.temp.closed:\n                self.temp.truncate(0)\n                return\n", 'expect': 'C12.W4'},
     {'id': 'exit_syncs_directory_after_replace', 'file': '__init__.py', 'find': "                self._temp_name.replace(self.filename)\n                committed = True\n", 'replace': "                self._temp_name.replace(self.filename)\n                _os.fsync(_os.open(self.filename.parent, _os.O_RDONLY))\n                committed = True\n", 'expect': 'C12.W7'},
     {'id': 'exit_commit_decided_up_front', 'file': '__init__.py', 'find': '        committed = False\n        try:', 'replace': '        commit = exc_type is None\n        try:', 'extra': [{'file': '__init__.py', 'find': '            if exc_type is None:\n                # No exception, commit changes\n                self._temp_name.replace(self.filename)\n                committed = True\n', 'replace': '            if commit:\n                self._temp_name.replace(self.filename)\n'}, {'file': '__init__.py', 'find': '            if not committed:', 'replace': '            if not commit:'}], 'expect': 'C12.W3'},
     {'id': 'ok_exit_body_ok_alias', 'file': '__init__.py', 'find': '        committed = False\n        try:', 'replace': '        committed = False\n        body_ok = exc_type is None\n        try:', 'extra': [{'file': '__init__.py', 'find': '            if exc_type is None:\n                # No exception, commit changes\n', 'replace': '            if body_ok:\n'}], 'expect': None},
